@@ -592,12 +592,18 @@ func genCall(t *rapid.T, drawing bool) Call {
 			return op(ops.OpDraw(ops.ClosePathEndPath))
 		}
 		k := rapid.SampledFrom(gen.DrawVerbs).Draw(t, "verb")
-		if prevVerb != 0 && rapid.IntRange(0, 2).Draw(t, "again") == 0 {
+		if rapid.IntRange(0, 7).Draw(t, "closemove") == 0 {
+			k = ops.ClosePathAbsMoveTo
+		} else if prevVerb != 0 && rapid.IntRange(0, 2).Draw(t, "again") == 0 {
 			k = prevVerb // the same verb again: one run in the encoding
 		} else if rapid.IntRange(0, 11).Draw(t, "longrun") == 0 {
 			runLeft = rapid.IntRange(15, 40).Draw(t, "runlen")
 		}
 		prevVerb = k
+		if k == ops.ClosePathAbsMoveTo && rapid.Bool().Draw(t, "tostart") {
+			// an absolute close-and-move to the very point the path was started at
+			return op(ops.OpDraw(k, pathStart[0], pathStart[1]))
+		}
 		return drawCall(k)
 	}
 	switch rapid.IntRange(0, 5).Draw(t, "styling") {
@@ -622,12 +628,16 @@ func genCall(t *rapid.T, drawing bool) Call {
 	case 4:
 		return op(ops.OpSetLOD(float32(rapid.IntRange(0, 100).Draw(t, "l0")), float32(rapid.IntRange(0, 1000).Draw(t, "l1"))))
 	default:
-		return op(ops.OpStartPath(gen.Adj(t, "adj"), exact(t, "x"), exact(t, "y")))
+		pathStart = [2]float32{exact(t, "x"), exact(t, "y")}
+		return op(ops.OpStartPath(gen.Adj(t, "adj"), pathStart[0], pathStart[1]))
 	}
 }
 
 // prevVerb: the drawing verb genCall drew last in the current case.
 var prevVerb ops.Kind
+
+// pathStart: where genCall started the current path.
+var pathStart [2]float32
 
 // hiresOK: genCall may assign the resolution field.
 var hiresOK bool
